@@ -3,8 +3,10 @@ package crashkit10
 import (
 	"bytes"
 	"context"
+	"encoding/json"
 	"errors"
 	"fmt"
+	"io"
 	"os"
 	"runtime"
 	"syscall"
@@ -31,6 +33,40 @@ func Desc(b *Blob) ocispec.Descriptor {
 	return ocispec.Descriptor{MediaType: b.MediaType, Digest: digest.Digest(b.Digest()), Size: int64(len(b.Content()))}
 }
 
+// slowReader hands out at most ReadUnit bytes per Read (like a network body), so
+// that a blob of a few dozen KiB is written by several write system calls and the
+// kill points include cuts in the middle of the content.
+type slowReader struct {
+	data []byte
+	off  int
+}
+
+const ReadUnit = 16 << 10
+
+func (r *slowReader) Read(p []byte) (int, error) {
+	if r.off >= len(r.data) {
+		return 0, io.EOF
+	}
+	n := len(r.data) - r.off
+	if n > ReadUnit {
+		n = ReadUnit
+	}
+	if n > len(p) {
+		n = len(p)
+	}
+	copy(p, r.data[r.off:r.off+n])
+	r.off += n
+	return n, nil
+}
+
+func descOf(b *Blob, variant bool) ocispec.Descriptor {
+	d := Desc(b)
+	if variant {
+		d.MediaType = ""
+	}
+	return d
+}
+
 // ErrName maps an error to the small enum shared with the model.
 func ErrName(err error) string {
 	switch {
@@ -44,6 +80,10 @@ func ErrName(err error) string {
 		return "missingref"
 	case errors.Is(err, errdef.ErrInvalidReference):
 		return "invalidref"
+	}
+	var syn *json.SyntaxError
+	if errors.As(err, &syn) {
+		return "invalid" // a manifest that does not decode
 	}
 	// content.ErrMismatchedDigest etc. are plain errors of package content
 	msg := err.Error()
@@ -63,16 +103,16 @@ func Do(ctx context.Context, st *oci.Store, s *Script, o Op, dir string) error {
 		return err
 	case "push":
 		b := s.Blob(o.Blob)
-		return st.Push(ctx, Desc(b), bytes.NewReader(b.Content()))
+		return st.Push(ctx, Desc(b), &slowReader{data: b.Content()})
 	case "pushbad":
 		b := s.Blob(o.Blob)
-		return st.Push(ctx, Desc(b), bytes.NewReader(b.BadContent()))
+		return st.Push(ctx, Desc(b), &slowReader{data: b.BadContent()})
 	case "tag":
-		return st.Tag(ctx, Desc(s.Blob(o.Blob)), RefName(o.Ref))
+		return st.Tag(ctx, descOf(s.Blob(o.Blob), o.Variant), RefName(o.Ref))
 	case "untag":
 		return st.Untag(ctx, RefName(o.Ref))
 	case "delete":
-		return st.Delete(ctx, Desc(s.Blob(o.Blob)))
+		return st.Delete(ctx, descOf(s.Blob(o.Blob), o.Variant))
 	case "saveindex":
 		return st.SaveIndex()
 	}
@@ -102,6 +142,7 @@ func ChildMain(dir, scriptPath string) int {
 	for i := range s.Blobs {
 		_ = s.Blobs[i].Content()
 	}
+	syscall.Umask(0o022) // file modes are part of the compared state
 	ctx := context.Background()
 	if s.Final.Kind == "init" {
 		// the operation under test is the initialisation itself
@@ -117,6 +158,7 @@ func ChildMain(dir, scriptPath string) int {
 		return 4
 	}
 	st.AutoGC = s.AutoGC
+	st.AutoSaveIndex = !s.NoAutoSave
 	out := ""
 	for _, o := range s.History {
 		mark(MarkOp)
